@@ -13,6 +13,7 @@ import (
 	"os/exec"
 	"path/filepath"
 	"regexp"
+	"sort"
 	"strconv"
 	"strings"
 	"sync/atomic"
@@ -130,6 +131,9 @@ func (r Req) hostile() bool {
 type Case struct {
 	Reqs         []Req `json:"reqs"`
 	SnapshotPump bool  `json:"snapshot_pump"` // the server compacts its logs every 40 ms (verif env pump)
+	// Torn: the kill arrived while the store was appending a record to its write-ahead (value) log: the newest log file
+	// ends with this many bytes of an unfinished record (0 = the kill fell between two writes)
+	Torn int `json:"torn,omitempty"`
 }
 
 func genCase(t *rapid.T) Case {
@@ -165,6 +169,10 @@ func genCase(t *rapid.T) Case {
 		if rapid.IntRange(0, 9).Draw(t, "badid") == 0 {
 			c.Reqs[i].Id = rapid.IntRange(6, 10).Draw(t, "idsel")
 		}
+	}
+	// one case in three: the kill falls inside the append of a log record
+	if rapid.IntRange(0, 2).Draw(t, "torn?") == 0 {
+		c.Torn = rapid.SampledFrom([]int{1, 2, 7, 16, 17, 40, 200}).Draw(t, "torn")
 	}
 	return c
 }
@@ -659,6 +667,20 @@ func check(c Case, o *pbt.Obs) *pbt.Failure {
 	// kill -9, restart on the same data directory, the server must replay and answer
 	s.kill9()
 	cl.conn.Close()
+	if c.Torn > 0 {
+		if files, _ := filepath.Glob(filepath.Join(dataDir, "anndb", "*.vlog")); len(files) > 0 {
+			sort.Strings(files)
+			if f, err := os.OpenFile(files[len(files)-1], os.O_APPEND|os.O_WRONLY, 0); err == nil {
+				tail := make([]byte, c.Torn)
+				for i := range tail {
+					tail[i] = byte(37*i + c.Torn + 1)
+				}
+				f.Write(tail)
+				f.Close()
+				o.Label("restart-after-a-torn-log-record")
+			}
+		}
+	}
 	for round := 0; round < 2; round++ {
 		s2, err := startServer(dataDir, port, c.SnapshotPump)
 		if err != nil {
@@ -733,7 +755,7 @@ func check(c Case, o *pbt.Obs) *pbt.Failure {
 func TestNoRequestKillsTheServer(t *testing.T) {
 	pbt.Run(t, pbt.Prop[Case]{
 		ID: "C12", Name: "TestNoRequestKillsTheServer",
-		Rule:    "rapid-generated sequences of 5-24 well-typed requests over every RPC of DatasetManager, DataManager, Search (and NodesManager list/load-info) against a real server process (cmd/anndb of the working tree, verif tag for fast logical time and, in half of the cases, log compaction every 40 ms), fields drawn mostly valid with hostile values mixed in (ids of length 0/15/17, unknown/malformed dataset and partition ids, dimension 0/2048, empty / longer / shorter / NaN / Inf / huge vectors, over-long, numerous, at-the-limit and multi-byte (fewer characters than bytes) metadata, k in {0,1,10^6,2^32-1}, batch sizes 0/1/100/101/1000 with duplicates and one hostile item (malformed id, wrong dimension, empty vector, nil, client-set level field negative or huge, hostile metadata), partition / replica counts 0/64/9) after a valid dataset and items exist; oracle: after every request the process is alive and answers a List ping (3 s, confirmed with 10 s), then kill -9 and two restarts on the same data directory: the server must come up, stay up through replay and answer a valid write into every dataset known to exist (success or a definite error, not a timeout) within 20 s; non-trivial = a hostile request followed by a valid one; distinct = distinct case JSON",
+		Rule:    "rapid-generated sequences of 5-24 well-typed requests over every RPC of DatasetManager, DataManager, Search (and NodesManager list/load-info) against a real server process (cmd/anndb of the working tree, verif tag for fast logical time and, in half of the cases, log compaction every 40 ms), fields drawn mostly valid with hostile values mixed in (ids of length 0/15/17, unknown/malformed dataset and partition ids, dimension 0/2048, empty / longer / shorter / NaN / Inf / huge vectors, over-long, numerous, at-the-limit and multi-byte (fewer characters than bytes) metadata, k in {0,1,10^6,2^32-1}, batch sizes 0/1/100/101/1000 with duplicates and one hostile item (malformed id, wrong dimension, empty vector, nil, client-set level field negative or huge, hostile metadata), partition / replica counts 0/64/9) after a valid dataset and items exist; oracle: after every request the process is alive and answers a List ping (3 s, confirmed with 10 s), then kill -9 (in a third of the cases the kill falls inside the append of a record to the store's write-ahead log: the newest log file ends with 1-200 bytes of an unfinished record) and two restarts on the same data directory: the server must come up, stay up through replay and answer a valid write into every dataset known to exist (success or a definite error, not a timeout) within 20 s; non-trivial = a hostile request followed by a valid one; distinct = distinct case JSON",
 		Gen:     genCase,
 		Check:   check,
 		Journal: false,
